@@ -162,6 +162,7 @@ static int do_call(int t, int k)
     return r == -1 ? e : -r - 1000;
 }
 
+static int fork_variant;
 static void do_fork(int t)
 {
     int pfd[2]; if (pipe(pfd)) {}
@@ -169,12 +170,14 @@ static void do_fork(int t)
     if (p == 0) {
         free_run = 1; close(pfd[0]);
         alarm(20);
-        int e = do_call(t, 99);
-        char b[32]; int n = snprintf(b, sizeof b, "ok %d", e); if (write(pfd[1], b, n) < 0) {}
-        /* a grandchild: the child forks again and the grandchild execs too */
+        char b[32]; int n, e = 0;
+        /* a grandchild: the child forks again and the grandchild execs too. Variant 0: the child execs first; variant 1 (odd schedules): the child
+           forks again BEFORE it has made any exec call of its own */
+        if (fork_variant == 0) { e = do_call(t, 99); n = snprintf(b, sizeof b, "ok %d", e); if (write(pfd[1], b, n) < 0) {} }
         pid_t g = fork();
         if (g == 0) { int e2 = do_call(t, 98); _exit(e2 == ENOENT ? 0 : 3); }
         int st = 0; waitpid(g, &st, 0);
+        if (fork_variant == 1) { e = do_call(t, 99); n = snprintf(b, sizeof b, "ok %d", e); if (write(pfd[1], b, n) < 0) {} }
         if (write(pfd[1], WIFEXITED(st) && WEXITSTATUS(st) == 0 ? " gok" : " gbad", 5) < 0) {}
         _exit(0);
     }
@@ -305,6 +308,7 @@ int main(int argc, char **argv)
         if (p == 0) {
             char lp[600]; snprintf(lp, sizeof lp, "%s", argv[3]);
             fprintf(out, "{\"schedule\":%d}\n", idx); fflush(out);
+            fork_variant = idx & 1;
             run_schedule(line, out, lp); fflush(out); _exit(0);
         }
         int st; waitpid(p, &st, 0);
